@@ -19,7 +19,8 @@ func init() {
 		ThoroughGOOS: []string{"darwin", "freebsd", "openbsd", "windows"},
 		Explanation: "Filter-list refresh. Decided: (D1) commit only on success: CloseReplace is called only where the `updated` flag is true; the flag handed to the finaliser is the function's own ok result, ok implies err == nil for the very error being returned, no transfer/parse error is overwritten with nil on the way, and the parser writes only into the pending file; " +
 			"(D2) an unchanged checksum never sets ok; (D3) list metadata (rule count, checksum, name) is written only after CloseReplace returned nil, when (re)loading the file, and when copying back a list that really was updated with matching ID and URL; (D4) a response is handed to the parser only for status 200 with a nil transport error. " +
-			"Not decided: the parser's normal form being a fixed point, HTML/binary detection, fault placement inside a body.",
+			"(D5) the parser: the HTML test is applied to the trimmed line for as long as nothing has been written (no other condition stands before it) and its positive outcome returns the HTML error; what is written is exactly the trimmed line plus a newline, only for lines classified as rules, the classification sees only the trimmed line, and the rule count and checksum are advanced exactly once, over that same trimmed line, on the path that writes — so re-parsing the stored form reproduces count and checksum; the parse loop stops at the first line error and adds the bytes written. " +
+			"Not decided: what counts as an HTML or binary line (isHTMLLine/parseLine internals), fault placement inside a body.",
 		RuleText:    "Path guards and reaching-store resolution on SSA; writers of the metadata fields are enumerated over the whole module.",
 		Assumptions: []string{"a failure of CloseReplace itself (rename/fsync error) is outside the enumerated faults"},
 		Trusted:     commonTrusted,
@@ -61,6 +62,7 @@ func runC15(c *Ctx) {
 	c15UpdateIntl(c)
 	c15Metadata(c)
 	c15Reader(c)
+	c15Parser(c)
 }
 
 func c15UpdateIntl(c *Ctx) {
@@ -525,4 +527,218 @@ func c15Reader(c *Ctx) {
 	off2, _ := core.UnguardedSinks(fn, nonNilReader, g2)
 	r.Check(n2 > 0 && len(off2) == 0, "C15-D4", "body-only-without-transport-error", p.FnPos(fn),
 		"a response body is returned only when the HTTP request returned no error", "a response can be used although the request failed", traceOf(p, off2)...)
+}
+
+// c15Parser: D5.
+func c15Parser(c *Ctx) {
+	p, r := c.P, c.R
+	fn := p.Fn("(*filtering/rulelist.Parser).processLine")
+	if fn == nil || len(fn.Params) < 3 {
+		r.Undecided("C15-D5", "processLine", "-", "anchor not found")
+		return
+	}
+	line := fn.Params[2]
+	var trimmed ssa.Value
+	for _, call := range core.CallsTo(fn, "bytes.TrimSpace") {
+		if call.Arg(0) == ssa.Value(line) {
+			trimmed, _ = call.Instr.(ssa.Value)
+		}
+	}
+	if trimmed == nil {
+		r.Fail("C15-D5", "line-trimmed", p.FnPos(fn), "the line is no longer trimmed with bytes.TrimSpace before it is classified and stored")
+		return
+	}
+	// HTML test
+	html := core.CallsTo(fn, "filtering/rulelist.isHTMLLine")
+	if len(html) != 1 {
+		r.Fail("C15-D5", "html-test", p.FnPos(fn), fmt.Sprintf("expected one HTML test per line, found %d", len(html)))
+	} else {
+		hc := html[0]
+		blk := hc.Instr.Block()
+		ok, why := hc.Arg(0) == trimmed, "the HTML test does not look at the trimmed line"
+		// every branch that decides whether the test runs is 'nothing written yet'
+		for _, b := range fn.Blocks {
+			if b == blk || !b.Dominates(blk) {
+				continue
+			}
+			iff, isIf := b.Instrs[len(b.Instrs)-1].(*ssa.If)
+			if !isIf {
+				continue
+			}
+			// does the branch decide? (one successor cannot reach the test)
+			decides, toTest := false, -1
+			for i, s := range b.Succs {
+				if found, _, _ := core.Reach(core.Query{From: []core.Point{{Block: s, Idx: 0}}, Target: func(in ssa.Instruction) bool { return in == hc.Instr.(ssa.Instruction) }}); !found {
+					decides = true
+				} else {
+					toTest = i
+				}
+			}
+			if !decides {
+				continue
+			}
+			at := core.Decompose(iff.Cond)
+			fr, _, isField := core.LoadedField(at.Base)
+			zero, isZero := core.ConstInt(at.Other)
+			atomOnEdge := (toTest == 0) != at.Neg // value of the atom on the edge that leads to the test
+			dirOK := ((at.Op == token.EQL || at.Op == token.LEQ) && atomOnEdge) || ((at.Op == token.NEQ || at.Op == token.GTR) && !atomOnEdge)
+			if !(isField && fr.Field == "written" && isZero && zero == 0 && dirOK) {
+				ok, why = false, "the HTML test is guarded by a condition other than 'nothing has been written yet' ("+p.InstrPos(iff)+"): markup after a blank or comment line, or on a later line before the first rule, is stored as rules"
+			}
+		}
+		// positive outcome returns ErrHTML
+		v, _ := hc.Instr.(ssa.Value)
+		edges, n := core.CondEdges(fn, func(at core.Atom) (bool, bool) { return at.Op == token.ILLEGAL && at.Base == v, true })
+		retHTML := n == 1
+		for e := range edges {
+			tb := e.From.Succs[e.Succ]
+			ret, isRet := tb.Instrs[len(tb.Instrs)-1].(*ssa.Return)
+			if !isRet || len(ret.Results) != 2 || core.IsNilConst(ret.Results[1]) {
+				retHTML = false
+			}
+		}
+		if ok && !retHTML {
+			ok, why = false, "a positive HTML test does not immediately return an error"
+		}
+		r.Check(ok, "C15-D5", "html-test:while-nothing-written", p.InstrPos(hc.Instr), "the HTML test runs on the trimmed line whenever nothing has been written yet and its positive outcome is an error", why)
+	}
+	// classification sees only the trimmed line
+	nCls := 0
+	okCls := true
+	for _, call := range core.Calls(fn) {
+		switch call.Key {
+		case "filtering/rulelist.parseLine":
+			nCls++
+			okCls = okCls && call.Arg(0) == trimmed
+		case "(*filtering/rulelist.Parser).parseLineTitle":
+			nCls++
+			okCls = okCls && call.Arg(1) == trimmed
+		}
+	}
+	r.Check(nCls >= 1 && okCls, "C15-D5", "classification-of-trimmed-line", p.FnPos(fn), "rule/comment classification is computed from the trimmed line only", "the classification no longer looks at the trimmed line only (the stored form would classify differently when re-parsed)")
+	// the write
+	var writes []core.Call
+	for _, call := range core.Calls(fn) {
+		if call.Common.IsInvoke() && call.Common.Method.Name() == "Write" {
+			writes = append(writes, call)
+		}
+	}
+	if len(writes) != 1 {
+		r.Fail("C15-D5", "one-write", p.FnPos(fn), fmt.Sprintf("expected exactly one write per rule line, found %d", len(writes)))
+		return
+	}
+	w := writes[0]
+	okW, whyW := false, "the written bytes are not the trimmed line followed by one newline"
+	if ap, ok := w.Common.Args[0].(*ssa.Call); ok {
+		if bi, ok := ap.Call.Value.(*ssa.Builtin); ok && bi.Name() == "append" && len(ap.Call.Args) == 2 && ap.Call.Args[0] == trimmed {
+			if sl, ok := ap.Call.Args[1].(*ssa.Slice); ok {
+				if al, ok := sl.X.(*ssa.Alloc); ok {
+					n, nl := 0, false
+					for _, u := range core.Users(al) {
+						if ia, ok := u.(*ssa.IndexAddr); ok {
+							for _, u2 := range core.Users(ia) {
+								if st, ok := u2.(*ssa.Store); ok {
+									n++
+									if v, ok := core.ConstInt(st.Val); ok && v == 10 {
+										nl = true
+									}
+								}
+							}
+						}
+					}
+					okW = n == 1 && nl
+				}
+			}
+		}
+	}
+	r.Check(okW, "C15-D5", "stored-form:trimmed-plus-newline", p.InstrPos(w.Instr), "a rule is stored as its trimmed line plus a newline", whyW)
+	// count and checksum advance exactly once, over the trimmed line, exactly on the writing path
+	wb := w.Instr.Block()
+	nCnt, nSum, sumOK, samePath := 0, 0, true, true
+	for _, b := range fn.Blocks {
+		for _, in := range b.Instrs {
+			st, ok := in.(*ssa.Store)
+			if !ok {
+				continue
+			}
+			fr, ok := core.FieldOfAddr(st.Addr)
+			if !ok || fr.Type != "filtering/rulelist.Parser" {
+				continue
+			}
+			switch fr.Field {
+			case "rulesCount":
+				nCnt++
+				bo, ok := st.Val.(*ssa.BinOp)
+				one := int64(0)
+				if ok {
+					one, _ = core.ConstInt(bo.Y)
+				}
+				if !ok || bo.Op != token.ADD || one != 1 {
+					sumOK = false
+				}
+			case "checksum":
+				nSum++
+				call, ok := st.Val.(*ssa.Call)
+				if !ok || core.CalleeKey(call.Common()) != "hash/crc32.Update" || len(call.Call.Args) != 3 || call.Call.Args[2] != trimmed {
+					sumOK = false
+				}
+			default:
+				continue
+			}
+			if !(b == wb || (b.Dominates(wb) && len(b.Succs) == 1)) {
+				samePath = false
+			}
+		}
+	}
+	r.Check(nCnt == 1 && nSum == 1 && sumOK && samePath, "C15-D5", "count-and-checksum-follow-the-write", p.InstrPos(w.Instr),
+		"the rule count is incremented once and the checksum is advanced once over the trimmed line, on the path that writes the line",
+		"rule count / checksum no longer advance exactly once over the stored bytes on the writing path (re-parsing the stored list would give another count or checksum)")
+	// only rule lines are written
+	ruleEdges, nR := core.CondEdges(fn, func(at core.Atom) (bool, bool) {
+		if at.Op != token.ILLEGAL {
+			return false, false
+		}
+		for _, l := range core.FlattenPhi(at.Base) {
+			e, ok := l.(*ssa.Extract)
+			if !ok || e.Index != 1 {
+				return false, false
+			}
+			if cl, ok := e.Tuple.(*ssa.Call); !ok || !strings.Contains(core.CalleeKey(cl.Common()), "parseLine") {
+				return false, false
+			}
+		}
+		return true, true
+	})
+	off, nS := core.UnguardedSinks(fn, func(in ssa.Instruction) bool { return in == w.Instr.(ssa.Instruction) }, ruleEdges)
+	r.Check(nR > 0 && nS == 1 && len(off) == 0, "C15-D5", "only-rules-written", p.InstrPos(w.Instr), "only lines classified as rules are written", "a line can be written without having been classified as a rule (comments or blank lines end up in the stored form)", traceOf(p, off)...)
+
+	// the parse loop
+	pf := p.Fn("(*filtering/rulelist.Parser).Parse")
+	if pf == nil {
+		r.Undecided("C15-D5", "Parse", "-", "anchor not found")
+		return
+	}
+	pls := core.CallsTo(pf, "(*filtering/rulelist.Parser).processLine")
+	if len(pls) != 1 {
+		r.Fail("C15-D5", "parse-loop", p.FnPos(pf), "expected one processLine call in the scan loop")
+		return
+	}
+	pl := pls[0].Instr.(ssa.Value)
+	errEdges, nE := core.CondEdges(pf, func(at core.Atom) (bool, bool) {
+		if (at.Op == token.NEQ || at.Op == token.EQL) && core.IsNilConst(at.Other) {
+			for _, l := range core.FlattenPhi(core.ResolveCellLoad(at.Base)) {
+				if e, ok := l.(*ssa.Extract); ok && e.Tuple == pl && e.Index == 1 {
+					return true, at.Op == token.NEQ
+				}
+			}
+		}
+		return false, false
+	})
+	stops := nE == 1
+	for e := range errEdges {
+		if found, _, _ := core.Reach(core.Query{From: []core.Point{{Block: e.From.Succs[e.Succ], Idx: 0}}, Target: func(in ssa.Instruction) bool { return in == pls[0].Instr.(ssa.Instruction) }}); found {
+			stops = false
+		}
+	}
+	r.Check(stops, "C15-D5", "parse-stops-at-first-line-error", p.FnPos(pf), "parsing stops at the first line error (HTML, binary, write error) and reports it", "parsing can continue after a line error")
 }
